@@ -163,6 +163,10 @@ fn variant_of(s: &Signed, p: usize, k: usize) -> Case {
         // an upper-case hex letter at the first differing position (a client that sends upper-case hex)
         sig[p] = b'A' + ((p % 6) as u8);
     }
+    if k == 3 {
+        // a character outside the hex alphabet at the first differing position (a guess padded with 'x', say)
+        sig[p] = b'g' + (p % 19) as u8;
+    }
     if k == 1 {
         // everything after the first difference differs too (same class)
         for q in p + 1..64 {
@@ -259,16 +263,18 @@ fn main() {
             log::set_max_level(log::LevelFilter::Off);
         }
         // quick: one variant per position (kinds alternate along the positions); thorough: all three
-        let variants_per_pos = if thorough { 3 } else { 1 };
-        let variant_kinds: [usize; 3] = [0, 2, 1];
+        let variants_per_pos = if thorough { 4 } else { 1 };
+        let variant_kinds: [usize; 4] = [0, 2, 1, 3];
         // no heap activity in this loop: results go into fixed arrays and are reported afterwards
-        let mut results: [(usize, usize, usize, i64, bool); 192] = [(0, 0, 0, -1, false); 192];
+        let mut results: [(usize, usize, usize, i64, bool); 256] = [(0, 0, 0, -1, false); 256];
         let mut nres = 0usize;
         let mut have_ref = false;
-        let mut errors: [&'static str; 192] = [""; 192];
+        let mut errors: [&'static str; 256] = [""; 256];
         for p in 0..64usize {
             for kk in 0..variants_per_pos {
-                let k = if thorough { variant_kinds[kk] } else { [0usize, 2][p % 2] };
+                // quick: kinds alternate along the positions — one wrong character, an upper-case one, a non-hex
+                // one, and (at a few positions) everything after the first difference wrong as well
+                let k = if thorough { variant_kinds[kk] } else if p % 16 == 5 { 1 } else { [0usize, 2, 0, 3][p % 4] };
                 let r = trace(&Work::Variant { base: &s, pos: p, k }, &mut cur);
                 match r {
                     Err(e) => {
